@@ -126,6 +126,12 @@ class SymL:
         return self.b(a) == self.b(b)
 
     def ite(self, c, a, b):
+        if isinstance(c, bool):
+            return _z(a) if c else _z(b)
+        if z3.is_true(c):
+            return _z(a)
+        if z3.is_false(c):
+            return _z(b)
         a, b = _z(a), _z(b)
         if z3.is_int(a) and z3.is_real(b):
             a = z3.ToReal(a)
@@ -149,6 +155,24 @@ class SymL:
         i, j = self.var('q'), self.var('r')
         return z3.ForAll([i, j], z3.Implies(z3.And(_z(r1[0]) <= i, i < _z(r1[1]), _z(r2[0]) <= j, j < _z(r2[1])),
                                             self.b(f(i, j))))
+
+    def forall_dep(self, lo, hi, width, f):
+        """for all i in [lo, hi) and j in [0, width(i)): f(i, j)"""
+        i, j = self.var('q'), self.var('r')
+        return z3.ForAll([i, j], z3.Implies(z3.And(_z(lo) <= i, i < _z(hi), j >= 0, j < _z(width(i))), self.b(f(i, j))))
+
+    def alen(self, lo, hi, step):
+        """len(range(lo, hi, step)) for step >= 1 (ghost function ALEN; the conditional difference when step is 1)"""
+        lo, hi, step = _z(lo), _z(hi), _z(step)
+        if z3.is_int_value(step) and step.as_long() == 1:
+            return z3.If(hi > lo, hi - lo, z3.IntVal(0))
+        return z3.Function('ALEN', z3.IntSort(), z3.IntSort(), z3.IntSort(), z3.IntSort())(lo, hi, step)
+
+    def alen_axioms(self):
+        a, b, s = z3.Int('al!a'), z3.Int('al!b'), z3.Int('al!s')
+        f = z3.Function('ALEN', z3.IntSort(), z3.IntSort(), z3.IntSort(), z3.IntSort())
+        return [z3.ForAll([a, b, s], z3.Implies(s >= 1, z3.And(f(a, b, s) >= 0, z3.Implies(b <= a, f(a, b, s) == 0), z3.Implies(b > a, f(a, b, s) >= 1))),
+                          patterns=[f(a, b, s)])]
 
     def forallN(self, ranges, f):
         vs = [self.var('q') for _ in ranges]
@@ -187,6 +211,18 @@ class SymL:
 
     def eq(self, a, b):
         return _z(a) == _z(b)
+
+    abstract_mul = False
+
+    def mul(self, a, b):
+        """product of two symbolic integers/reals; an opaque function when the contract asks for term abstraction
+        (the executor does the same for `*` in the code, so equal products stay syntactically equal)"""
+        a, b = _z(a), _z(b)
+        if z3.is_int_value(a) or z3.is_rational_value(a) or z3.is_int_value(b) or z3.is_rational_value(b) or not self.abstract_mul:
+            return a * b
+        if z3.is_int(a) and z3.is_int(b):
+            return self.func('imul', 'int', 'int', 'int')(a, b)
+        return self.func('mul', 'real', 'real', 'real')(self.real(a), self.real(b))
 
     def int_below(self, c, bound):
         """c < bound where bound may be +inf (an integer is always below +inf)"""
@@ -231,6 +267,10 @@ class SymL:
         k = a.kind if a.kind != 'bool' else 'int'
         f = z3.Function('SUM%d_%s' % (a.ndim, k), a.term.sort(), *([z3.IntSort()] * a.ndim), sort_of(k))
         return f(a.term, *a.shape)
+
+    def range_parts(self, r):
+        """(start, stop, step) of a range object"""
+        return r[1], r[2], (r[3] if len(r) > 3 else 1)
 
     def slice_is(self, piece, base, lo, n):
         """piece (element of a list of slices of `base`) is base[lo:lo+n]"""
@@ -290,6 +330,15 @@ class ConL:
     def forall2(self, r1, r2, f):
         return all(bool(f(i, j)) for i in range(int(r1[0]), int(r1[1])) for j in range(int(r2[0]), int(r2[1])))
 
+    def forall_dep(self, lo, hi, width, f):
+        return all(bool(f(i, j)) for i in range(int(lo), int(hi)) for j in range(int(width(i))))
+
+    def alen(self, lo, hi, step):
+        return len(range(int(lo), int(hi), int(step)))
+
+    def alen_axioms(self):
+        return []
+
     def forallN(self, ranges, f):
         return all(bool(f(*ix)) for ix in itertools.product(*[range(int(lo), int(hi)) for lo, hi in ranges]))
 
@@ -322,6 +371,9 @@ class ConL:
     def eq(self, a, b):
         return a == b
 
+    def mul(self, a, b):
+        return a * b
+
     def int_below(self, c, bound):
         return c < bound
 
@@ -353,6 +405,9 @@ class ConL:
     def sum(self, a):
         import numpy as np
         return np.sum(a)
+
+    def range_parts(self, r):
+        return r.start, r.stop, r.step
 
     def slice_is(self, piece, base, lo, n):
         import numpy as np
